@@ -27,7 +27,7 @@ func scanCase(ops, text string) []string {
 }
 
 func genScanOps(r *rand.Rand, n int, emit func(args ...string)) {
-	for _, s := range []string{"", " ", "a", "SELECT", "SELECT * FROM m", "a\n 'x'", "'abc", "'a\\qb'", "\"x", "1.", ".5", "1.5s", "abc\"def\"", "a\r\nb\rc\n", "m\x00; x", "\x00", "a\x00", "-- c", "/* c", "$", "$\"a b\"", "!", "<>", "1s2", "1µ", "1.2.3", "é", "\xff\xfe", "'\\", "'\\\x00", "x /re/ y", "'a\nb'", "\"a\nb\"", "\r", "\r\n", "\n\r", "a--b\nc", "a/**/b", "/***/", "/* * / */x", "::", ":", ";;", "1..2"} {
+	for _, s := range []string{"", " ", "a", "SELECT", "SELECT * FROM m", "a\n 'x'", "'abc", "'a\\qb'", "\"x", "1.", ".5", "1.5s", "abc\"def\"", "a\r\nb\rc\n", "m\x00; x", "\x00", "a\x00", "-- c", "/* c", "$", "$\"a b\"", "!", "<>", "1s2", "1µ", "3s7µ", "1ms500µ", "1µ2µ", "2h10µ5ns", "1µs3", "1.2.3", "é", "\xff\xfe", "'\\", "'\\\x00", "x /re/ y", "'a\nb'", "\"a\nb\"", "\r", "\r\n", "\n\r", "a--b\nc", "a/**/b", "/***/", "/* * / */x", "::", ":", ";;", "1..2"} {
 		emit(scanCase("-", s)...)
 	}
 	for _, s := range []string{"/abc/", "/a\\/b/ x", "/a\\b/", "/a\\\\/", "/abc", "/a\nb/", "x", "", "/", "//", "/\\", "/\\/", "/a\x00b/", "/é/", " /a/"} {
